@@ -148,7 +148,9 @@ theorem trimPolyA_spec (st : AInfo) (a : Int) (h : a < st.exons.length) :
       st1.readStart = st.readStart ∧ st1.readEnd = st.readEnd ∧
       (a ≤ 0 → st1 = st) ∧
       (0 < a → shiftPolya st.exons a st.info.internalPolyA = some st1.info.internalPolyA ∧
-               shiftPolya st.exons a st.info.externalPolyA = some st1.info.externalPolyA) := by
+               (shiftPolya st.exons a st.info.externalPolyA).map
+                 (clampA st.info.internalPolyA st.info.externalPolyA st1.info.internalPolyA) =
+                   some st1.info.externalPolyA) := by
   unfold trimPolyA
   by_cases ha : a > 0
   · obtain ⟨v1, hv1⟩ := shiftPolya_some st.exons a st.info.internalPolyA ha h
@@ -168,7 +170,9 @@ theorem trimPolyT_spec (st : AInfo) (t : Int) (h : t < st.exons.length) :
       st1.readStart = st.readStart ∧ st1.readEnd = st.readEnd ∧
       (t ≤ 0 → st1 = st) ∧
       (0 < t → shiftPolyt st.exons t st.info.internalPolyT = some st1.info.internalPolyT ∧
-               shiftPolyt st.exons t st.info.externalPolyT = some st1.info.externalPolyT) := by
+               (shiftPolyt st.exons t st.info.externalPolyT).map
+                 (clampT st.info.internalPolyT st.info.externalPolyT st1.info.internalPolyT) =
+                   some st1.info.externalPolyT) := by
   unfold trimPolyT
   by_cases ht : t > 0
   · obtain ⟨v1, hv1⟩ := shiftPolyt_some st.exons t st.info.internalPolyT ht h
@@ -198,11 +202,13 @@ theorem addPolyaInfo_spec (mf : Int) (exons rb cb : List Iv) (info : PolyAInfo) 
       -- positions
       (a ≤ 0 → st1.info = info) ∧
       (0 < a → shiftPolya exons a info.internalPolyA = some st1.info.internalPolyA ∧
-               shiftPolya exons a info.externalPolyA = some st1.info.externalPolyA) ∧
+               (shiftPolya exons a info.externalPolyA).map
+                 (clampA info.internalPolyA info.externalPolyA st1.info.internalPolyA) = some st1.info.externalPolyA) ∧
       st1.info.internalPolyT = info.internalPolyT ∧ st1.info.externalPolyT = info.externalPolyT ∧
       (t ≤ 0 → st2.info = st1.info) ∧
       (0 < t → shiftPolyt st1.exons t info.internalPolyT = some st2.info.internalPolyT ∧
-               shiftPolyt st1.exons t info.externalPolyT = some st2.info.externalPolyT) ∧
+               (shiftPolyt st1.exons t info.externalPolyT).map
+                 (clampT info.internalPolyT info.externalPolyT st2.info.internalPolyT) = some st2.info.externalPolyT) ∧
       st2.info.internalPolyA = st1.info.internalPolyA ∧ st2.info.externalPolyA = st1.info.externalPolyA := by
   obtain ⟨a, t, hcri, hlt, _, _, _⟩ := correctReadInfo_spec mf exons info hne
   have hlen : 0 < exons.length := List.length_pos_iff.2 hne
@@ -221,7 +227,8 @@ theorem addPolyaInfo_spec (mf : Int) (exons rb cb : List Iv) (info : PolyAInfo) 
   obtain ⟨st1, h1, h1e, h1r, h1c, h1it, h1et, h1ch, _, _, h1id, h1sh⟩ := trimPolyA_spec st0 a (by simp [st0]; omega)
   have h1len : st1.exons.length = exons.length - a.toNat := by
     rw [h1e]; simp [st0]
-  obtain ⟨st2, h2, h2e, h2r, h2c, h2ia, h2ea, h2ch, _, _, h2id, h2sh⟩ := trimPolyT_spec st1 t (by rw [h1len]; omega)
+  have htlt : t < st1.exons.length := by rw [h1len]; omega
+  obtain ⟨st2, h2, h2e, h2r, h2c, h2ia, h2ea, h2ch, _, _, h2id, h2sh⟩ := trimPolyT_spec st1 t htlt
   have h2len : 0 < st2.exons.length := by rw [h2e, List.length_drop, h1len]; omega
   -- the final refresh
   obtain ⟨r, hr, hre, hrr, hrc, hri, hrch⟩ : ∃ r, refreshEnds st2 = some r ∧ r.exons = st2.exons ∧
@@ -250,7 +257,12 @@ theorem addPolyaInfo_spec (mf : Int) (exons rb cb : List Iv) (info : PolyAInfo) 
   · rw [hrch, h2ch, h1ch]; simp [st0]
   · intro h; rw [h1id h]
   · intro h; rw [h2id h]
-  · intro h; have := h2sh h; rw [h1it, h1et] at this; exact this
+  · intro h
+    obtain ⟨e1, e2⟩ := h2sh h
+    have hi : st1.info.internalPolyT = info.internalPolyT := h1it
+    have he : st1.info.externalPolyT = info.externalPolyT := h1et
+    rw [hi] at e1 e2; rw [he] at e2
+    exact ⟨e1, e2⟩
 
 /-! ### the distance loops of `shift_polya` / `shift_polyt` -/
 
@@ -560,5 +572,110 @@ theorem shiftDistA_counted (exons : List Iv) (k : Nat) (pos : Int) (hsd : SD exo
   split
   · omega
   · simp; omega
+
+/-! ### mirror image for the internal polyT position (c16x) -/
+
+theorem shiftDistT_append (pos : Int) : ∀ (A B : List Iv) (d : Int),
+    shiftDistT pos d (A ++ B) = shiftDistT pos (shiftDistT pos d A) B := by
+  intro A
+  induction A with
+  | nil => intro B d; rfl
+  | cons e es ih =>
+    intro B d
+    simp only [List.cons_append, shiftDistT]
+    split
+    · exact ih B d
+    · split <;> exact ih B _
+
+theorem shiftDistT_all_skip (pos : Int) : ∀ (L : List Iv) (d : Int), (∀ e ∈ L, e.2 < pos) → shiftDistT pos d L = d := by
+  intro L
+  induction L with
+  | nil => intro d _; rfl
+  | cons e es ih =>
+    intro d h
+    have he := h e (by simp)
+    simp only [shiftDistT, he, if_true]
+    exact ih d (fun x hx => h x (by simp [hx]))
+
+theorem countPolytLoop_le_takeWhile (mf pos : Int) (l : List Iv) :
+    ∀ cnt, countPolytLoop mf pos cnt l ≤ cnt + ((l.takeWhile (fun e => decide (e.1 < pos))).length : Nat) := by
+  induction l with
+  | nil => intro cnt; simp [countPolytLoop]
+  | cons e rest ih =>
+    intro cnt
+    have h1 := ih cnt
+    have h2 := ih (cnt + 1)
+    simp only [countPolytLoop, List.takeWhile_cons]
+    split
+    · rename_i hle
+      have : ¬ (e.1 < pos) := by omega
+      simp [this]
+    · rename_i hgt
+      have : e.1 < pos := by omega
+      simp only [this, decide_true, if_true, List.length_cons]
+      split <;> omega
+
+/-- the first `k ≤ count_polyt_exons` exons all start before the internal polyT position -/
+theorem first_counted_start_before (mf : Int) (exons : List Iv) (pos : Int) (k : Nat)
+    (hk : (k : Int) ≤ countPolytExons mf exons pos) (hk0 : 0 < k) :
+    ∀ e ∈ exons.take k, e.1 < pos := by
+  unfold countPolytExons at hk
+  split at hk
+  · omega
+  · have h1 := countPolytLoop_le_takeWhile mf pos exons 0
+    have h2 : k ≤ (exons.takeWhile (fun e => decide (e.1 < pos))).length := by omega
+    intro e he
+    have := take_le_takeWhile _ exons k h2 e he
+    simpa using this
+
+theorem shiftPolyt_eq (exons : List Iv) (k pos : Int) (h0 : 0 < k) (h1 : k < exons.length) (hp : pos ≠ -1) :
+    ∃ fk : Iv, exons[k.toNat]? = some fk ∧
+      shiftPolyt exons k pos = some (fk.1 - shiftDistT pos 0 (exons.take k.toNat)) := by
+  obtain ⟨fk, hfk, hfk'⟩ := pyGet?_nonneg exons k (by omega) h1
+  refine ⟨fk, hfk', ?_⟩
+  unfold shiftPolyt
+  have hc : ¬ (k = 0 ∨ k = exons.length ∨ pos = -1) := by omega
+  have hc2 : ¬ (k > exons.length) := by omega
+  simp [hc, hc2, hfk]
+
+/-- when the removed exons all start before `pos` (as the counted ones do), only the last removed exon can
+    contribute to the distance: it is `max 0 (last.2 - pos)` -/
+theorem shiftDistT_counted (exons : List Iv) (k : Nat) (pos : Int) (hsd : SD exons) (hk0 : 0 < k)
+    (hk : k < exons.length) (hstart : ∀ e ∈ exons.take k, e.1 < pos) :
+    shiftDistT pos 0 (exons.take k) = max 0 ((exons[k - 1]'(by omega)).2 - pos) := by
+  have hk1 : k - 1 < exons.length := by omega
+  have htake : exons.take k = exons.take (k - 1) ++ [exons[k - 1]] := by
+    have : k = (k - 1) + 1 := by omega
+    conv => lhs; rw [this]
+    rw [List.take_succ_eq_append_getElem hk1]
+  have hmem : exons[k - 1] ∈ exons.take (k - 1) ++ [exons[k - 1]] :=
+    List.mem_append_right _ (List.mem_singleton.2 rfl)
+  rw [← htake] at hmem
+  have hl := hstart (exons[k - 1]) hmem
+  rw [htake, shiftDistT_append, shiftDistT_all_skip pos _ 0 (by
+    intro e he
+    obtain ⟨i, hi, rfl⟩ := List.mem_iff_getElem.1 he
+    rw [List.length_take] at hi
+    rw [List.getElem_take]
+    have := List.pairwise_iff_getElem.1 hsd.2 i (k - 1) (by omega) hk1 (by omega)
+    omega)]
+  simp only [shiftDistT]
+  split
+  · omega
+  · simp; omega
+
+/-! ### the clamp of the repaired `add_polya_info` -/
+
+theorem clampA_le (oi oe ni ne : Int) : clampA oi oe ni ne ≤ ne := by
+  unfold clampA; split <;> omega
+
+theorem clampA_both (oi oe ni ne : Int) (h1 : oi ≠ -1) (h2 : oe ≠ -1) : clampA oi oe ni ne = min ne ni := by
+  simp [clampA, h1, h2]
+
+theorem clampT_ge (oi oe ni ne : Int) : ne ≤ clampT oi oe ni ne := by
+  unfold clampT; split <;> omega
+
+theorem clampT_both (oi oe ni ne : Int) (h1 : oi ≠ -1) (h2 : oe ≠ -1) : clampT oi oe ni ne = max ne ni := by
+  simp [clampT, h1, h2]
 
 end IsoVerif.Lemmas.C16
